@@ -75,8 +75,8 @@ type litWrite struct {
 type effSummary struct {
 	litWrites    map[string]litWrite // writes rooted at a parameter of a function literal of this function
 	writes       map[string]effWrite
-	returnsFresh bool // nothing reachable from the result is shared with a caller-visible object
-	returnsNew   bool // the result itself is newly allocated (it may embed pointers handed in)
+	returnsFresh bool     // nothing reachable from the result is shared with a caller-visible object
+	returnsNew   bool     // the result itself is newly allocated (it may embed pointers handed in)
 	conc         []string // go statements, channel operations, sync/atomic use
 	extCalls     map[string]extCall
 }
@@ -890,6 +890,36 @@ func (e *effEngine) call(fi *core.FuncInfo, call *ast.CallExpr) {
 		}
 	}
 	_ = recvExpr
+	// a declared function handed over as a visitor (forEach(x, visit)): whoever receives it may call it on anything
+	// reachable from the other arguments — its writes through its parameters are attributed to each pointer-like
+	// argument of this call, location unknown
+	for _, fa := range call.Args {
+		var fobj *types.Func
+		switch x := core.Unparen(fa).(type) {
+		case *ast.Ident:
+			fobj, _ = info.Uses[x].(*types.Func)
+		case *ast.SelectorExpr:
+			fobj, _ = info.Uses[x.Sel].(*types.Func)
+		}
+		if fobj == nil {
+			continue
+		}
+		g := e.c.P.Funcs[fobj.Origin()]
+		if g == nil || e.sum[g] == nil {
+			continue
+		}
+		for _, w := range e.sortedWrites(g) {
+			if w.root != "param" || len(w.via) > 10 {
+				continue
+			}
+			for _, a := range call.Args {
+				if a == fa || !pointerLike(info.TypeOf(a)) {
+					continue
+				}
+				e.recordWrite(fi, a, w.how, w.pos, nil, w.steps, append([]string{g.QName() + " (handed over as a function value)"}, w.via...), w.fn, w.lhs, true)
+			}
+		}
+	}
 	argFor := func(i int) ast.Expr {
 		if i == -1 {
 			return recvExpr
